@@ -189,12 +189,44 @@ theorem PresPar.updateOne (sub : Str) (kv : Key × Obj) (ho : kv.2.parent = none
   unfold MesonModel.Options.updateOne
   repeat (first | exact PresPar.setOption _ _ _ | exact PresPar.addProjectOption _ _ ho | exact PresPar.replaceObj _ _ _ _ _ ho
                 | pp_core)
+/-- unlinking only clears parent pointers -/
+theorem PresPar.unlinkChildren (ids : List Nat) : PresPar (unlinkChildren ids) := by
+  unfold MesonModel.Options.unlinkChildren
+  apply PresPar.modify
+  intro s hs
+  let f : Obj → Obj := fun c =>
+    match c.parent with
+    | some pid => if ids.contains pid then { c with parent := none, yielding := false } else c
+    | none => c
+  have fk : ∀ c, (f c).kind = c.kind := by
+    intro c; simp only [f]; split
+    · split <;> rfl
+    · rfl
+  have fp : ∀ c pid, (f c).parent = some pid → c.parent = some pid := by
+    intro c pid h
+    simp only [f] at h
+    split at h
+    · split at h
+      · cases h
+      · exact h
+    · rename_i hn; rw [hn] at h; cases h
+  show ParentOk { s with heap := s.heap.map f }
+  intro i o pid hi hpar
+  simp only [List.getElem?_map, Option.map_eq_some_iff] at hi
+  obtain ⟨c, hc, rfl⟩ := hi
+  obtain ⟨p, hp, hs'⟩ := hs i c pid hc (fp c pid hpar)
+  exact ⟨f p, by simp [hp], by rw [fk, fk]; exact hs'⟩
+
 theorem PresPar.updateProjectOptions (sub : Str) (objs : List (Key × Obj)) (ho : ∀ kv ∈ objs, kv.2.parent = none) :
     PresPar (updateProjectOptions sub objs) := by
   unfold MesonModel.Options.updateProjectOptions
   apply PresPar.bind (PresPar.forEachMem objs (fun kv hkv => PresPar.updateOne sub kv (ho kv hkv)))
   intro _
-  apply PresPar.modify; intro s hs; exact hs
+  apply PresPar.bind PresPar.get
+  intro s0
+  apply PresPar.bind
+  · apply PresPar.modify; intro s hs; exact hs
+  · intro _; exact PresPar.unlinkChildren _
 
 theorem mkObjs_parent : ∀ {l : List (Key × ObjSpec)} {os : List (Key × Obj)}, mkObjs l = .ok os →
     ∀ kv ∈ os, kv.2.parent = none
